@@ -16,7 +16,10 @@ struct Idle<T> {
 impl<T> Idle<T> {
     fn new(inner: T) -> Self {
         Self {
+            #[cfg(not(feature = "verif-hooks"))]
             at: Instant::now(),
+            #[cfg(feature = "verif-hooks")]
+            at: crate::verif_hooks::now(),
             inner,
         }
     }
@@ -54,7 +57,10 @@ impl<T, B> IdleConnections<T, B> {
             let exipred = idle_timeout
                 .filter(|timeout| timeout.as_secs_f64() > 0.0)
                 .and_then(|timeout| {
+                    #[cfg(not(feature = "verif-hooks"))]
                     let now: Instant = Instant::now();
+                    #[cfg(feature = "verif-hooks")]
+                    let now: Instant = crate::verif_hooks::now();
                     now.checked_sub(timeout)
                 });
 
@@ -96,6 +102,13 @@ impl<T, B> IdleConnections<T, B> {
 
     pub(super) fn clear(&mut self) {
         self.inner.clear();
+    }
+}
+
+#[cfg(feature = "verif-hooks")]
+impl<T, B> IdleConnections<T, B> {
+    pub(super) fn verif_entries(&self) -> impl Iterator<Item = (Instant, &T)> {
+        self.inner.iter().map(|idle| (idle.at, &idle.inner))
     }
 }
 
